@@ -1151,6 +1151,15 @@ pub fn gen_c12(rng: &mut Rng) -> Value {
         };
         steps.push(st);
     }
+    if rng.chance(1, 10) {
+        // an entry whose content is gone (removed by address) is removed for good, then looked at
+        let ki = rng.idx(nk + 1);
+        let vi = rng.idx(3);
+        steps.push(json!({"k":"api","op":"write","entry":"write","key":ki,"val":vi}));
+        steps.push(json!({"k":"api","op":"remove_hash","addr":{"val":vi,"algo":"sha256"}}));
+        steps.push(json!({"k":"api","op":"remove_opts","fully":true,"key":ki}));
+        steps.push(json!({"k":"api","op":"metadata","key":ki}));
+    }
     if rng.chance(1, 8) {
         // something that is not the library's lies in the cache directory when it is cleared
         let at = rng.idx(steps.len() + 1);
